@@ -37,7 +37,7 @@ pub fn prop() -> Prop {
             Tier::Quick => 40,
             Tier::Thorough => 400,
         },
-        required_probes: &["signers_gt_t", "non_prefix_subset", "t_eq_n", "keygen_dkg", "keygen_split", "keygen_dealer", "concurrent_sessions", "ids_derived", "ids_u16ext", "ids_scalar", "msg_empty", "third_party_verified"],
+        required_probes: &["signers_gt_t", "non_prefix_subset", "t_eq_n", "keygen_dkg", "keygen_split", "keygen_dealer", "concurrent_sessions", "ids_derived", "ids_u16ext", "ids_scalar", "msg_empty", "third_party_verified", "signers_ge_9", "signers_ge_17"],
         prepare: None,
     }
 }
@@ -62,6 +62,15 @@ fn gen_c<C: Suite>(seed: u64, run: u64, tier: Tier) -> Scenario {
     if tier == Tier::Thorough && !slow && C::COST <= 2 && keygen != 2 && p.chance(1, 150) {
         n = *p.pick(&[20u16, 40]);
         t = p.range(2, n as u64) as u16;
+    }
+    // larger signer sets (9..24) also in the quick tier: batching / chunking corners only show beyond 8 signers
+    if !slow && keygen != 2 && p.chance(1, 12) {
+        n = p.range(9, if C::COST >= 3 { 16 } else { 24 }) as u16;
+        t = match p.below(3) {
+            0 => n,
+            1 => p.range(9, n as u64) as u16,
+            _ => p.range(2, n as u64) as u16,
+        };
     }
     if keygen == 2 {
         // DKG costs O(n^2 t) scalar multiplications
@@ -151,6 +160,12 @@ fn exec_c<C: Suite>(scen: &Scenario) -> Exec {
             }
             if k == scen.n as usize {
                 rep.probe("all_n_sign");
+            }
+            if k >= 9 {
+                rep.probe("signers_ge_9");
+            }
+            if k >= 17 {
+                rep.probe("signers_ge_17");
             }
             // non-prefix subset: signer set is not the t lowest identifiers
             let mut all_ids: Vec<_> = pk.verifying_shares().keys().cloned().collect();
